@@ -276,4 +276,111 @@ theorem decode_sound (mode : Bool) (p : Option Bytes) (v : Parsed) (h : decode m
   | err e => rw [hu] at h; simp [Res.map, Res.coarse] at h
   | panic => rw [hu] at h; simp [Res.map, Res.coarse] at h
 
+/-! ### IsPartitionHead agrees with the parser on everything it accepts -/
+
+theorem parseSingle_shape (donl : Bool) (p : Option Bytes) (k : Pkt) (h : parseSingle donl p = .ok k) :
+    ∃ hh d q, k = .single hh d q := by
+  match p, h with
+  | none, h => simp [parseSingle] at h
+  | some [], h => simp [parseSingle] at h
+  | some [_], h => simp [parseSingle] at h
+  | some [_, _], h => simp [parseSingle] at h
+  | some (a :: b :: x :: xs), h =>
+    simp only [parseSingle] at h
+    by_cases hF : hdrF (rd16 a b) = true
+    · simp [hF] at h
+    · by_cases hT : (hdrIsFU (rd16 a b) || hdrIsPACI (rd16 a b) || hdrIsAgg (rd16 a b)) = true
+      · simp [hF, hT] at h
+      · cases donl with
+        | false =>
+          simp only [hF, hT, Bool.false_eq_true, if_false, Res.ok.injEq] at h
+          exact ⟨_, _, _, h.symm⟩
+        | true =>
+          simp only [hF, hT, Bool.false_eq_true, if_false, if_true] at h
+          match x, xs, h with
+          | d0, [], h => simp at h
+          | d0, [d1], h => simp at h
+          | d0, d1 :: y :: ys, h =>
+            simp only [Res.ok.injEq] at h
+            exact ⟨_, _, _, h.symm⟩
+
+theorem parseFU_shape (donl : Bool) (a b c : UInt8) (r : Bytes) (k : Pkt)
+    (h : parseFU donl (some (a :: b :: c :: r)) = .ok k) : ∃ d q, k = .fu (rd16 a b) c d q := by
+  match r, h with
+  | [], h => simp [parseFU] at h
+  | x :: xs, h =>
+    simp only [parseFU] at h
+    by_cases hF : hdrF (rd16 a b) = true
+    · simp [hF] at h
+    · by_cases hT : hdrIsFU (rd16 a b) = true
+      · by_cases hS : (fuS c && donl) = true
+        · simp only [hF, hT, hS, Bool.false_eq_true, if_false, if_true, Bool.not_true] at h
+          match x, xs, h with
+          | d0, [], h => simp at h
+          | d0, [d1], h => simp at h
+          | d0, d1 :: y :: ys, h =>
+            simp only [Res.ok.injEq] at h
+            exact ⟨_, _, h.symm⟩
+        · simp only [hF, hT, hS, Bool.false_eq_true, if_false, Bool.not_true, Res.ok.injEq] at h
+          exact ⟨_, _, h.symm⟩
+      · simp [hF, hT] at h
+
+theorem parsePACI_shape (p : Option Bytes) (k : Pkt) (h : parsePACI p = .ok k) :
+    ∃ hh w ph q, k = .paci hh w ph q := by
+  match p, h with
+  | none, h => simp [parsePACI] at h
+  | some [], h => simp [parsePACI] at h
+  | some [_], h => simp [parsePACI] at h
+  | some [_, _], h => simp [parsePACI] at h
+  | some [_, _, _], h => simp [parsePACI] at h
+  | some [_, _, _, _], h => simp [parsePACI] at h
+  | some (a :: b :: c :: d :: x :: xs), h =>
+    simp only [parsePACI] at h
+    by_cases hF : hdrF (rd16 a b) = true
+    · simp [hF] at h
+    · by_cases hT : hdrIsPACI (rd16 a b) = true
+      · by_cases hL : xs.length < (paciPHS (rd16 c d)).toNat
+        · simp [hF, hT, hL] at h
+        · have hL' : ¬ (x :: xs).length < (paciPHS (rd16 c d)).toNat + 1 := by
+            simp only [List.length_cons]; omega
+          simp only [hF, hT, hL', Bool.false_eq_true, if_false, Bool.not_true, Res.ok.injEq] at h
+          exact ⟨_, _, _, _, h.symm⟩
+      · simp [hF, hT] at h
+
+/-- on every payload `Unmarshal` accepts, IsPartitionHead says "first packet of a unit" exactly
+    when the decoded packet is not a non-first FU -/
+theorem head_consistent (donl : Bool) (p : Bytes) (k : Pkt) (h : unmarshal donl (some p) = .ok k) :
+    isPartitionHead p = C14.headSpec k.view.pkt := by
+  match p, h with
+  | [], h => simp [unmarshal] at h
+  | [_], h => simp [unmarshal] at h
+  | [_, _], h => simp [unmarshal] at h
+  | a :: b :: x :: xs, h =>
+    simp only [unmarshal] at h
+    by_cases hF : hdrF (rd16 a b) = true
+    · simp [hF] at h
+    · simp only [hF, Bool.false_eq_true, if_false] at h
+      by_cases h1 : hdrIsPACI (rd16 a b) = true
+      · simp only [h1, if_true] at h
+        have h49 : (hdrType (rd16 a b) == 49) = false := by
+          simp only [hdrIsPACI, beq_iff_eq] at h1; simp [h1]
+        obtain ⟨hh, w, ph, q, rfl⟩ := parsePACI_shape _ k h
+        simp [isPartitionHead, h49, Pkt.view, C14.headSpec]
+      · simp only [h1, Bool.false_eq_true, if_false] at h
+        by_cases h2 : hdrIsFU (rd16 a b) = true
+        · simp only [h2, if_true] at h
+          have h49 : (hdrType (rd16 a b) == 49) = true := h2
+          obtain ⟨d, q, rfl⟩ := parseFU_shape donl a b x xs k h
+          simp [isPartitionHead, h49, Pkt.view, C14.headSpec]
+        · simp only [h2, Bool.false_eq_true, if_false] at h
+          have h49 : (hdrType (rd16 a b) == 49) = false := by
+            simpa [hdrIsFU] using h2
+          by_cases h3 : hdrIsAgg (rd16 a b) = true
+          · simp only [h3, if_true] at h
+            obtain ⟨_, _, _, _, _, hh, d, fs, f, os, rfl⟩ := parseAgg_sound _ _ k h
+            simp [isPartitionHead, h49, Pkt.view, C14.headSpec]
+          · simp only [h3, Bool.false_eq_true, if_false] at h
+            obtain ⟨hh, d, q, rfl⟩ := parseSingle_shape _ _ k h
+            simp [isPartitionHead, h49, Pkt.view, C14.headSpec]
+
 end Rtp.Model.H265
